@@ -1,10 +1,10 @@
-#!/bin/sh
+#!/bin/bash
 # Re-confirm every seeded change against the CURRENT /repo HEAD in scratch worktrees (removed afterwards).
 # prints: <id> apply=<ok|fuzz|FAIL> clean=<rc> mutated=<rc> pytest=<n passed>
 one() {
   sd=$1; id=$(basename $sd); wt=/tmp/reseed_$id
   git -C /repo worktree add -q --detach $wt HEAD 2>/dev/null || { echo "$id WORKTREE-FAILED"; return; }
-  cp $sd/demo.py $wt/demo.py; [ -f $sd/demo_stubs.py ] && cp $sd/demo_stubs.py $wt/
+  cp $sd/*.py $wt/
   cd $wt
   /venv/bin/python demo.py >/tmp/reseed_$id.clean.log 2>&1; c=$?
   ap=ok
@@ -18,6 +18,9 @@ one() {
   cd /; git -C /repo worktree remove --force $wt
   echo "$id apply=$ap clean=$c mutated=$m pytest=[$p]"
 }
-for sd in /verif/seeded/C*; do one $sd & 
-  while [ $(jobs -r | wc -l) -ge 12 ]; do sleep 0.2; done
+if [ -n "$1" ]; then for id in "$@"; do one /verif/seeded/$id; done; exit 0; fi
+n=0
+for sd in /verif/seeded/C*; do
+  one $sd &
+  n=$((n+1)); if [ $n -ge 12 ]; then wait -n; n=$((n-1)); fi
 done; wait
